@@ -276,7 +276,7 @@ Lemma nested_jacobian_sound_lemma T N pre post inner iU iTg iIns iOuts U Tg Zs o
     ge_solveT T N inner iU iTg iIns iOuts = Some ri
     /\ mmul (ge_HU T N inner iU iTg) Xi = mopp (ge_HZ T N inner iIns iTg)
     /\ c_outs opr sb = iOuts /\ c_ins opr sb = iIns
-    /\ (forall o m, c_J opr sb o m = Dn (nth (index_of o iOuts) (nth (index_of m iIns) (ge_out ri) []) []))
+    /\ (forall o m, c_J opr sb o m = ge_entry T (map (totE T N inner) iU) (map (fun row => nth (index_of m iIns) row []) (ge_GU ri)) (totE T N inner m) o)
     /\ (U = [] -> G = map (fun z => map (fun o => to_dense T (totE T N (pre ++ sb :: post) z o)) outs) Zs)
     /\ (U <> [] -> exists r X, ge_solveT T N (pre ++ sb :: post) U Tg Zs outs = Some r /\ G = ge_out r
                      /\ mmul (ge_HU T N (pre ++ sb :: post) U Tg) X = mopp (ge_HZ T N (pre ++ sb :: post) Zs Tg)).
@@ -284,7 +284,7 @@ Proof.
   unfold nested_jacobian, solved_block. destruct (ge_solveT T N inner iU iTg iIns iOuts) as [ri|] eqn:Ei; [|discriminate].
   intros H.
   destruct (ge_solveT_sound_lemma _ _ _ _ _ _ _ _ Ei) as [Xi [HXi _]].
-  exists {| c_outs := iOuts; c_ins := iIns; c_J := fun o m => Dn (nth (index_of o iOuts) (nth (index_of m iIns) (ge_out ri) []) []) |}.
+  exists {| c_outs := iOuts; c_ins := iIns; c_J := fun o m => ge_entry T (map (totE T N inner) iU) (map (fun row => nth (index_of m iIns) row []) (ge_GU ri)) (totE T N inner m) o |}.
   exists ri, Xi. split; [reflexivity|]. split; [exact HXi|].
   split; [reflexivity|]. split; [reflexivity|]. split; [intros; reflexivity|].
   destruct U as [|u U'].
